@@ -888,7 +888,7 @@ int cmd_check(Args const& a)
 	std::vector<Plan> supp = e->supplement(b.prop, b.tier);
 	b.nseeded = a.geti("runs", e->budget(b.prop, b.tier));
 	b.total = b.nseeded + int64_t(supp.size());
-	double const secs = std::strtod(a.get("secs", b.tier ? "900" : "50").c_str(), nullptr);
+	double const secs = std::strtod(a.get("secs", b.tier ? "600" : "50").c_str(), nullptr);
 	b.hang_s = int(a.geti("hang", b.tier ? 180 : 90));
 
 	std::printf("dst check property=%s tier=%s seed=%llu engine=%s seeded_runs=%lld supplement=%zu jobs=%d flavours=%s\n"
